@@ -9,19 +9,104 @@ another goroutine:
   * PeriodicReader: `ForceFlush` whose send on `flushCh` won the race returns `ctx.Err()` while the run loop is
     still in `collectAndExport` — the Export call happens a little later (at the latest inside `Shutdown`, which
     waits for the run loop).
+  * TracerProvider.Shutdown with a done context (since f6b676c every processor's Shutdown is still called): the
+    simple span processor shuts its exporter down in a goroutine, the batch span processor drains its queue and
+    shuts its exporter down in a goroutine, and both return `ctx.Err()` (or nil) without waiting — the drain's
+    exports and the exporter's Shutdown may happen after the provider's Shutdown has returned.
 Such an arrival is not an API call: it is an internal step `land` of the system, here an op of its own in a
 WRAPPER op type (`LOp` / `MOp`), so the sequential models `LP.step` / `MP.step` and their theorems are untouched.
 The theorems over all `LOp` / `MOp` sequences (PropsLag.lean) cover every placement and size of the arrivals.
 
 Stated reading (Spec part): an export may arrive outside a ForceFlush / Shutdown call only for records that a
 ForceFlush / Shutdown has already tried to flush (`hand`), resp. at most one Export per ForceFlush / Shutdown call
-made so far and none once Shutdown has returned (`cap`); everything else is judged by `Spec.LP/MP.checkStep`
-exactly as before.
+made so far and none once Shutdown has returned (`cap`); trace provider: only a stock processor shut down by a
+provider Shutdown with a done context (`raced`) may still see its exporter's Shutdown (at most once in total) and
+exports of spans delivered to it before (never more than were delivered); everything else is judged by
+`Spec.TP/LP/MP.checkStep` exactly as before.
 -/
 import Otel.C15.Model
 import Otel.C15.Spec
 namespace Otel.C15.Lag
 open Otel.C15
+
+/-! ## Trace provider -/
+namespace T
+
+inductive TOp
+  | api (o : TP.Op)
+  | land (ln ls : Nat → Nat)   -- processor i's goroutine exports `ln i` more spans / calls the exporter's Shutdown (`ls i`)
+
+structure TSt where
+  st : TP.St
+  pendS : Nat → Nat := fun _ => 0   -- exporter Shutdown of stock processor i still outstanding after a raced Shutdown
+
+/-- processor i is shut down by this provider Shutdown with a done context, is a live stock processor around an
+exporter, and is in the list -/
+def racedHere (st : TP.St) (o : TP.Op) (i : Nat) : Bool :=
+  match o with
+  | .shutdown c _ =>
+    c.done && !st.isShutdown && st.procs.any (fun p => p.1 == i) && !(st.pool i).stopped &&
+      ((st.pool i).kind == .simpleRec || (st.pool i).kind == .batchRec)
+  | _ => false
+
+def chK : TP.Op → Nat → Nat
+  | .shutdown _ ch => ch.k
+  | _ => fun _ => 0
+
+/-- spans the stopped batch processor's drain can still export / the exporter Shutdown that can still arrive -/
+def landN (g : TSt) (ln : Nat → Nat) (i : Nat) : Nat :=
+  if (g.st.pool i).kind == .batchRec && (g.st.pool i).stopped then min (ln i) (g.st.pool i).queued else 0
+def landS (g : TSt) (ls : Nat → Nat) (i : Nat) : Nat := min (ls i) (g.pendS i)
+
+def landProc (dn ds : Nat) (p : TP.PS) : TP.PS :=
+  { p with queued := p.queued - dn, cnt := { p.cnt with n := p.cnt.n + dn, s := p.cnt.s + ds } }
+
+def tstep (g : TSt) : TOp → TSt × Res
+  | .api o =>
+    ({ st := (TP.step g.st o).1,
+       pendS := fun i => if racedHere g.st o i then 1 - min (chK o i) 1 else g.pendS i },
+     (TP.step g.st o).2)
+  | .land ln ls =>
+    ({ st := { g.st with pool := fun i => landProc (landN g ln i) (landS g ls i) (g.st.pool i) },
+       pendS := fun i => g.pendS i - landS g ls i }, .none)
+
+def trunFrom (g : TSt) : List TOp → List TP.Obs
+  | [] => []
+  | op :: r =>
+    { res := (tstep g op).2, snap := fun i => ((tstep g op).1.st.pool i).cnt } :: trunFrom (tstep g op).1 r
+
+def trun (kinds : List TP.PKind) (ops : List TOp) : List TP.Obs := trunFrom { st := TP.init kinds } ops
+
+open Spec in
+def tcheckStep (kinds : List TP.PKind) (r : Spec.TP.Ref) (op : TOp) (prev cur : Nat → Cnt) (res : Res) :
+    Fails × Spec.TP.Ref :=
+  match op with
+  | .api o => (Spec.TP.checkStep kinds r o prev cur res, Spec.TP.refStep r o res)
+  | .land _ _ =>
+    ({ m := !(allBelow kinds.length fun i =>
+            (cur i).a == (prev i).a && (cur i).e == (prev i).e &&
+            (match TP.kindOf kinds i with
+             | .batchRec =>
+               if r.raced i then (prev i).n ≤ (cur i).n && (cur i).n ≤ r.deliv i else (cur i).n == (prev i).n
+             | _ => (cur i).n == (prev i).n))
+       o := !(allBelow kinds.length fun i =>
+            match TP.kindOf kinds i with
+            | .simpleRec | .batchRec =>
+              if r.raced i then (prev i).s ≤ (cur i).s && (cur i).s ≤ 1 else (cur i).s == (prev i).s
+            | _ => (cur i).s == (prev i).s)
+       a := !(res == .none && allBelow kinds.length fun i => (cur i).f == (prev i).f)
+       t := res == .crash }, r)
+
+def tcheckFrom (kinds : List TP.PKind) (r : Spec.TP.Ref) (prev : Nat → Cnt) : List TOp → List TP.Obs → Spec.Fails
+  | op :: ops, o :: obs =>
+    (tcheckStep kinds r op prev o.snap o.res).1.or
+      (tcheckFrom kinds (tcheckStep kinds r op prev o.snap o.res).2 o.snap ops obs)
+  | _, _ => Spec.Fails.none
+
+def tcheck (kinds : List TP.PKind) (ops : List TOp) (obs : List TP.Obs) : Spec.Fails :=
+  (tcheckFrom kinds {} (fun _ => {}) ops obs).or { t := obs.length != ops.length }
+
+end T
 
 /-! ## Logger provider -/
 namespace L
